@@ -44,3 +44,35 @@ def frame_script(obligation: str, model: dict, cls: str):
     if which is None:
         return None
     return FRAME.format(obligation=obligation, cls=cls, which=which)
+
+
+RAISING = r'''#!/usr/bin/env python3
+"""Replay of obligation
+    {obligation}
+The verifier found a path of ComparisonConstraint.fitness on which a combination whose evaluation raises leaves no
+entry in the list of per-combination values.  Runs the real code: a comparison whose left side raises for every
+combination must make the constraint fail.  Exit 1 = violation reproduced."""
+import os, sys
+sys.path.insert(0, os.path.join(os.environ.get("VERIF_REPO", "/repo"), "src"))
+from fandango.language.parse.parse import parse
+
+g, cs = parse('<start> ::= <d> "," <d>\n<d> ::= "1" | "x"\nwhere int(<d>) == 1\n', use_stdlib=False, use_cache=False)
+c = cs[0]
+bad = []
+for word in ("x,x", "1,x", "x,1"):
+    tree = g.parse(word)
+    f = c.fitness(tree)
+    print(word, "-> success =", f.success, "solved/total =", f.solved, "/", f.total)
+    if f.success:
+        bad.append(word)
+ok = c.fitness(g.parse("1,1")).success
+print("1,1 -> success =", ok)
+if bad:
+    print("VIOLATION reproduced: the constraint int(<d>) == 1 reports success on", bad, "(int('x') raises)")
+    sys.exit(1)
+print("not reproduced")
+'''
+
+
+def raising_script(obligation: str, model: dict):
+    return RAISING.format(obligation=obligation)
